@@ -131,10 +131,17 @@ class NotOnCurve(Exception):
     pass
 
 def decodepoint(s):
-    unclamped = int(binascii.hexlify(s[:32][::-1]), 16)
+    # only the one canonical 32-byte encoding of a point is accepted
+    if len(s) != 32:
+        raise ValueError("encoded point must be exactly 32 bytes")
+    unclamped = int(binascii.hexlify(s[::-1]), 16)
     clamp = (1 << 255) - 1
     y = unclamped & clamp # clear MSB
+    if y >= Q:
+        raise ValueError("non-canonical point encoding: y >= Q")
     x = xrecover(y)
+    if x == 0 and unclamped & (1<<255):
+        raise ValueError("non-canonical point encoding: sign bit set for x=0")
     if bool(x & 1) != bool(unclamped & (1<<255)): x = Q-x
     P = [x,y]
     if not isoncurve(P): raise NotOnCurve("decoding point that is not on curve")
